@@ -318,16 +318,35 @@ class ParseContext:
     else:
       module = '.'.join([source.partial_path(), *inner_names])
 
+    name = fn_or_cls_name
+    import_source = self._import_source(source, attr_names)
     original = _inverse_lookup(fn_or_cls)
+    if original is not None:
+      # We're re-registering something (a class, one of whose methods is being
+      # configured). Keep the identity it was first registered under, whichever
+      # import spelling names it now, so that existing bindings still reach it.
+      name = original.name
+      module = original.module
+      import_source = original.import_source
+    elif (inspect.isfunction(fn_or_cls) and path_attrs and
+          inspect.isclass(path_attrs[-1])):  # pytype: disable=not-supported-yet
+      enclosing = _inverse_lookup(path_attrs[-1])
+      if enclosing is not None:
+        # A method of an already registered class belongs under that class's
+        # selector, again independently of the spelling used here.
+        module = enclosing.selector
     _make_configurable(
         fn_or_cls,
-        name=fn_or_cls_name,
+        name=name,
         module=module,
-        import_source=self._import_source(source, attr_names),
+        import_source=import_source,
         avoid_class_mutation=True)
-    if original is not None:  # We've re-registered something...
+    if original is not None:
+      # Point existing references at the new registration directly: their own
+      # selectors may have been written in another file, with other imports.
+      updated = _INVERSE_REGISTRY[fn_or_cls]
       for reference in iterate_references(_CONFIG, to=original.wrapper):
-        reference.initialize()
+        reference.initialize(updated)
 
     if inspect.isfunction(fn_or_cls) and inspect.isclass(path_attrs[-1]):  # pytype: disable=not-supported-yet
       self._register(attr_names[:-1], attr_values[:-1])
@@ -723,9 +742,10 @@ class ConfigurableReference:
     self._evaluate = evaluate
     self.initialize()
 
-  def initialize(self):
+  def initialize(self, configurable_=None):
     *self._scopes, self._selector = self._scoped_selector.split('/')
-    self._configurable = _parse_context().get_configurable(self._selector)
+    self._configurable = (
+        configurable_ or _parse_context().get_configurable(self._selector))
     if not self._configurable:
       _raise_unknown_reference_error(self)
     self._scoped_configurable_fn = _decorate_with_scope(
